@@ -178,6 +178,7 @@ pub struct Baseline {
 
 /// Outcome classes counted as coverage.
 pub fn exec_case(item: &CorpusItem, base: &Baseline, fault: &StoreFault, other: Option<&[u8]>, case: &dyn Fn() -> serde_json::Value, sum: Option<&mut Summary>) -> Option<Violation> {
+    crate::progress::begin(case);
     let mutated = apply(&item.bytes, fault, other);
     let in_frames = span(fault).map_or(false, |(first, _)| first >= base.frame_start_bit);
     let mut note = |k: &str| {
@@ -520,6 +521,7 @@ fn unhex(s: &str) -> Result<Vec<u8>, String> {
 
 /// Raw stored bytes (never-panics half only): the parser returns an error or a result.
 fn exec_raw(bytes: &[u8], what: &str, sum: Option<(&mut Summary, &str)>) -> Option<Violation> {
+    crate::progress::begin(&|| json!({"raw_hex": hex(bytes), "origin": what}));
     let r = parse(bytes);
     if let Some((sum, kind)) = sum {
         sum.cases += 1;
